@@ -42,7 +42,6 @@ def is_scalar(c):
 class Poly:
     """Sparse multivariate polynomial: {monomial(tuple of var names, sorted): Fraction}."""
     __slots__ = ('t',)
-    __array_priority__ = 1000
 
     def __init__(self, terms=None):
         self.t = terms if terms is not None else {}
